@@ -232,5 +232,13 @@ def check(s):
         s.eq("C03.8", o["con"], o["nz"], o["row"].get("values", NONE), o["ref"]["value"],
              "the `values` the estimator reads are the policy's value for the observation acted on at that step", o["loc"], key="estimator-values-source",
              necessary_for="delta_t = r_t + gamma*(1-done_t)*V_{t+1} - V_t with V_t the value of step t's observation")
-    for r, n in (("C03.1", 3), ("C03.2", 2), ("C03.3", 1), ("C03.4", 2), ("C03.5", 2), ("C03.6", 4), ("C03.7", 5), ("C03.8", 4)):
+        nzp = Normalizer(o["b"], ite_poly=True)
+        rw = o["row"].get("rewards")
+        want_r = nzp.canon(("ite", o["ref"]["boot_pred"], o["ref"]["boot_val"], o["ref"]["r"]))
+        got_r = nzp.canon(rw) if rw is not None else None
+        s.ob("C03.8", o["con"], got_r == want_r,
+             "the `rewards` the estimator reads are the environment's reward of that step (plus the truncation bootstrap of that same step only)", o["loc"],
+             key="estimator-rewards-source", detail=f"code: {show_term(got_r, 400) if got_r else 'missing'}\nreference: {show_term(want_r, 400)}",
+             necessary_for="r_t in delta_t is the reward of step t")
+    for r, n in (("C03.1", 3), ("C03.2", 2), ("C03.3", 1), ("C03.4", 2), ("C03.5", 2), ("C03.6", 4), ("C03.7", 5), ("C03.8", 6)):
         s.floor(r, n)
